@@ -1439,6 +1439,43 @@ def regression_incr_at_expiry(ctx, res):
     return ok
 
 
+def fractional_timeouts(ctx, res):
+    """Directed histories with timeouts that are not whole seconds (0.5 s, 1.75 s, 2.5 s, on the clock grid) through
+    set / add / touch / get_or_set / set_many-free paths: the item must be visible a quarter second before its expiry
+    time and gone a quarter second after it (the expiry instant itself is left out).  Three-way like every history."""
+    bad = 0
+    n = 0
+    for tmo in (0.5, 1.75, 2.5):
+        hists = [
+            [mkop('set', T0, key='a', value=5, timeout=tmo), mkop('get', T0 + tmo - 0.25, key='a'),
+             mkop('has_key', T0 + tmo - 0.25, key='a'), mkop('get', T0 + tmo + 0.25, key='a')],
+            [mkop('add', T0, key='a', value=6, timeout=tmo), mkop('get', T0 + tmo - 0.25, key='a'),
+             mkop('add', T0 + tmo - 0.25, key='a', value=7, timeout=tmo), mkop('get', T0 + tmo + 0.25, key='a')],
+            [mkop('set', T0, key='a', value=5, timeout=30), mkop('touch', T0 + 1, key='a', timeout=tmo),
+             mkop('get', T0 + 1 + tmo - 0.25, key='a'), mkop('incr', T0 + 1 + tmo - 0.25, key='a'),
+             mkop('get', T0 + 1 + tmo + 0.25, key='a')],
+            [mkop('get_or_set', T0, key='a', value=8, timeout=tmo), mkop('get', T0 + tmo - 0.25, key='a'),
+             mkop('get', T0 + tmo + 0.25, key='a')],
+        ]
+        for ops in hists:
+            clock = instr.Clock(T0)
+            with instr.Installed(clock, extra_modules=[dj_base, dj_locmem]):
+                recs = execute(REGRESSION_PARAMS, ops, clock, lambda: ctx.scratch('c19frac'))
+            n += 1
+            res.count(['c19-fractional', tmo, [o['op'] for o in ops]], nontrivial=True)
+            for i, rec in enumerate(recs):
+                if rec['dis']:
+                    bad += 1
+                    sig, oracle = rec['dis']
+                    res.violations.append(fw.Violation(
+                        sig, '%s after %s with a timeout of %s s: DjangoCache -> %s, contract -> %s' % (
+                            show_op(ops[i]), show_op(ops[0]), tmo, show(rec['impl']), show(rec['ref'])),
+                        {'check': 'history', 'params': REGRESSION_PARAMS, 'ops': ops, 'failing_index': i, 'expected': rec['ref'],
+                         'observed': rec['impl'], 'oracle': oracle, 'locmem': rec['lm'], 'reference': rec['ref']}))
+                    break
+    res.extra['fractional_timeout_histories'] = {'histories': n, 'failing': bad}
+
+
 # ---------------------------------------------------------------------------
 # correspondence with coq/model/Django.v
 
@@ -1634,6 +1671,7 @@ def run(ctx):
     # directed histories first, then a spread of the generated ones
     correspondence(ctx, res, hists, limit)
     regression_incr_at_expiry(ctx, res)
+    fractional_timeouts(ctx, res)
     return res
 
 
@@ -1642,6 +1680,7 @@ def search(ctx, broken):
     res.rule = RULE
     monitor(ctx, res, 400 if ctx.quick else 3000, 22, 34)
     regression_incr_at_expiry(ctx, res)
+    fractional_timeouts(ctx, res)
     return res
 
 
